@@ -201,10 +201,52 @@ def population(ctx):
         if lz is not None:
             out.append((f"{crv}-leading-zero", ECKey(lz, lz)))
     out.append(("P-256-pem-marker", ECKey(pem_marker_key(), pem_marker_key())))
+    # RSA keys whose d / dp / dq / qi is an octet shorter than its usual width (a fixed-width export would not be the
+    # minimal big-endian form), and moduli that are not a whole number of octets - as native keys, so that every export
+    # is computed from the numbers and not replayed from a received dict
+    for lbl, rk in short_rsa_keys():
+        out.append((lbl, rk))
+    for bits, rk in (special_rsa_keys() if ctx.tier != "quick" else special_rsa_keys()[:2]):
+        out.append((f"rsa-{bits}-bits", RSAKey(rk.raw_value, rk.raw_value)))
     out += special_ec_keys(rng)
     for crv, kn in (("Ed25519", "ed25519"), ("Ed448", "ed448"), ("X25519", "x25519"), ("X448", "x448")):
         out.append((kn, K.key(kn)))
         out.append((f"{crv}-gen", OKPKey.generate_key(crv)))
+    return out
+
+
+def respelled_private_jwks(rng):
+    """Private keys imported from JWK dicts whose integers are spelled unusually but acceptably to the importer: EC
+    coordinates / RSA integers with leading zero octets stripped or added.  [(label, Key)] - only those the importer accepts."""
+    out = []
+
+    def strip(v):
+        return b64u(strict_b64(v).lstrip(b"\x00") or b"\x00")
+
+    def pad(v):
+        return b64u(b"\x00" + strict_b64(v))
+    for label, ek in special_ec_keys(rng):
+        d = ek.as_dict(private=True)
+        for what, f in (("stripped", strip), ("padded", pad)):
+            for names in (("x",), ("y",), ("x", "y"), ("x", "y", "d")):
+                d2 = dict(d)
+                for n in names:
+                    d2[n] = f(d[n])
+                if d2 == d:
+                    continue
+                try:
+                    out.append((f"{label}-{'-'.join(names)}-{what}", ECKey.import_key(d2)))
+                except Exception:  # noqa: BLE001
+                    pass
+    d = K.jwk_dict("rsa2048")
+    for names in (("n",), ("d",), ("p", "q"), ("dp", "dq", "qi"), ("n", "e", "d", "p", "q", "dp", "dq", "qi")):
+        d2 = dict(d)
+        for n in names:
+            d2[n] = pad(d[n])
+        try:
+            out.append((f"rsa2048-{'-'.join(names)}-padded", RSAKey.import_key(d2)))
+        except Exception:  # noqa: BLE001
+            pass
     return out
 
 
@@ -219,6 +261,14 @@ def odd_shapes():
     for kn in ("p256", "ed25519", "x25519"):
         out.append((f"odd-{kn}-public", K.key(kn, private=False)))
     return out
+
+
+def short_rsa_keys():
+    """corpus/special_rsa_short.json (tools/gen_special_keys.py): 1024-bit RSA keys with a short d, dp, dq or qi, from PEM."""
+    import json
+    from pathlib import Path
+    data = json.loads((Path(__file__).resolve().parent.parent.parent / "corpus" / "special_rsa_short.json").read_text())
+    return [("rsa-" + lbl.replace("_", "-"), RSAKey.import_key(d["pem"])) for lbl, d in sorted(data.items())]
 
 
 def special_rsa_keys():
